@@ -2,6 +2,7 @@ package world
 
 import (
 	"context"
+	"crypto/rsa"
 	"errors"
 	"fmt"
 	"net/http"
@@ -22,6 +23,8 @@ type Call struct {
 	Err  string   `json:"err,omitempty"`
 	// Faulted is set when an injected fault fired on this call.
 	Faulted bool `json:"faulted,omitempty"`
+	// Kind is the kind of the fault that fired (the last matching one when several were configured for the call).
+	Kind string `json:"kind,omitempty"`
 	// Req keeps the AuthnRequest handed to CreateAuthRequest.
 	Req *samlp.AuthnRequestType `json:"-"`
 }
@@ -226,6 +229,7 @@ func (s *Store) enter(op string, args ...string) (string, *Call) {
 			c.Faulted = true
 		}
 	}
+	c.Kind = kind
 	s.Log = append(s.Log, c)
 	return kind, &s.Log[len(s.Log)-1]
 }
@@ -390,6 +394,9 @@ func (s *Store) keyResult(op, name string) (*key.CertificateAndKey, error) {
 		return &key.CertificateAndKey{Certificate: k.CertDER}, nil
 	case "nocert":
 		return &key.CertificateAndKey{Key: k.RSA}, nil
+	case "zerokey":
+		// a key record that was allocated and never filled in: as missing as a nil one
+		return &key.CertificateAndKey{Certificate: k.CertDER, Key: &rsa.PrivateKey{}}, nil
 	case "emptycert":
 		return &key.CertificateAndKey{Certificate: []byte{}, Key: k.RSA}, nil
 	case "mismatch":
